@@ -262,3 +262,10 @@ func execC10Slow(sc c10Slow) *vstat.Outcome {
 func TestC10SlowStore(t *testing.T) {
 	vstat.Run(t, "C10", "netw", genC10Slow, execC10Slow)
 }
+
+// TestC08SlowReload: the same histories judged for C08 -- a persisted response that left memory
+// is asked for by several clients at once while the store is slow: each of them is served it
+// unchanged or a refetched one, never an error
+func TestC08SlowReload(t *testing.T) {
+	vstat.Run(t, "C08", "netw", genC10Slow, execC10Slow)
+}
